@@ -10,10 +10,11 @@ Variable var : list ascii -> R.
 Variable fn : list ascii -> list R -> R.
 Variable mag : nat -> R.
 Variable idx : list ascii -> R -> R.
+Variable nm : nat -> R.
 Hypothesis lit0 : litv ["0"; "."; "0"]%char = 0.
 Hypothesis pow0 : forall x, fn ["p"; "o"; "w"]%char [x; 0] = 1.
 Hypothesis exp0 : fn ["e"; "x"; "p"]%char [0] = 1.
-Notation sem := (sem litv var fn mag idx).
+Notation sem := (sem litv var fn mag idx nm).
 Notation cval := (cval mag).
 Notation V := (V var).
 Notation Lt := (Lt litv).
